@@ -96,7 +96,8 @@ def run_case(ctx, case, rng):
     return {'outcome': 'skipped', 'reason': 'generator_reject'}
   src = models.read(spec.content)
   pool = recipe_pool(rng, src)
-  model = bytes(spec.content)
+  # the API accepts a (mutable) bytearray: use one in half of the histories so that an in-place edit would be observable
+  model = bytearray(spec.content) if rng.random() < 0.5 else bytes(spec.content)
   qs = [aeq.Quantizer(model), aeq.Quantizer(model)] if rng.random() < 0.6 else [aeq.Quantizer(model)]
   cur = [None] * len(qs)       # recipe JSON currently loaded per quantizer
   cals = []                    # shared statistics objects
@@ -163,7 +164,7 @@ def run_case(ctx, case, rng):
             quantized[qi] = True
           except Exception as e:  # pylint: disable=broad-except
             sha = 'EXC:' + type(e).__name__
-        TRIPLES.append({'case': case, 'model': model, 'recipe': rec_js, 'cal': snap, 'sha': sha,
+        TRIPLES.append({'case': case, 'model': bytes(spec.content), 'recipe': rec_js, 'cal': snap, 'sha': sha,
                         'steps': list(ctx.steps) + [['quantize', qi, ci]]})
         ctx.count('quantize_calls')
         if ci is not None:
